@@ -1864,8 +1864,12 @@ class NetCDFWrite(IOWrite):
         {}
 
         """
-        if self.implementation.get_data_shape(bounds)[1] == 1:
-            # No part node count variable required
+        if (
+            self.implementation.get_data_shape(bounds)[1] == 1
+            and self.implementation.get_interior_ring(coord) is None
+        ):
+            # No part node count variable required. (One is always
+            # required when there is an interior ring variable.)
             return {}
 
         g = self.write_vars
